@@ -9,3 +9,4 @@ import Gbo.Props.C06
 import Gbo.Props.C07
 import Gbo.Props.C12
 import Gbo.Props.C14
+import Gbo.Props.C17
